@@ -19,6 +19,7 @@ RULE = (
     "read followed by a valid message, then a healthy peer's message — no crash, both delivered; peer-state families: subscriptions of 0..1000 bytes (plain, cancelled, multi-frame, garbage) against published topics of 0..300 bytes on PUB/XPUB, ROUTER peers with identities of every legal length and sends to near-miss addresses, REP requests behind envelopes of up to 40 frames and their replies — state built from a peer's well-formed bytes must not make the application's own later call panic. Non-trivial: the implementation returned something other than 'none' (an item or an error). "
     "Spec oracle (needs no model): no PANIC, no abort/stack overflow of the child process, heap growth within "
     "64 x bytes-received + 32 KiB (peak growth and largest single request, measured around the decode calls)."
+    ' Family text-identity: a peer announces an identity that is valid UTF-8 with 2-, 3- and 4-byte characters at every byte offset (up to 255 bytes), then leaves (EOF / reset) while a second peer goes on; the harness installs a `log` logger that FORMATS every record the library emits, and its panic hook counts panics on every thread: a panic inside a task the library spawned (swallowed by the runtime) is reported on the op during which it happened.'
 )
 ASSUMPTIONS = [
     "allocator and stack limits are observed (counting allocator, 256 KiB stack thread), not modelled",
@@ -251,6 +252,44 @@ def peer_state_cases(tier):
         sc.add(f"poll {f}", "wire 1", "halves 1", "halves 11")
         out.append(Case(f"peer-state-proxy-worker-msg#{n}", "world", list(sc.ops), ["socket-proxied-message"]))
         n += 1
+    # identities that are TEXT (valid UTF-8 with multi-byte characters at every offset): whatever the library does with a
+    # peer's identity besides comparing it — log lines (the harness installs a logger that formats every record), monitor
+    # events — has to cope with the bytes the peer chose; the named peer then leaves and the socket goes on serving
+    texts = []
+    for ch in ("\u00fc", "\u20ac", "\U0001f600"):
+        w = len(ch.encode())
+        for lead in range(w):
+            texts.append(("a" * lead + ch * ((255 - lead) // w)).encode())
+    texts += [("a" * lead + "\u00fc" * 20).encode() for lead in (0, 1)] + ["Wetterstation-Nord2/Temperaturf\u00fchler-07".encode()]
+    for t, pt, good in (("PUB", "SUB", [b"\x01"]), ("XPUB", "SUB", [b"\x01"]), ("ROUTER", "DEALER", [b"ok"]), ("PULL", "PUSH", [b"ok"]),
+                        ("REP", "REQ", [b"", b"ok"]), ("DEALER", "ROUTER", [b"ok"]), ("SUB", "PUB", [b"ok"]), ("PUSH", "PULL", None)):
+        for ident in (texts if t in ("PUB", "XPUB", "ROUTER") or tier != "quick" else texts[:3]):
+            for leave in ("eof", "rderr"):
+                sc = wg.Script()
+                sc.sock(1, t)
+                sc.attach(1, 1, pt, ident)
+                sc.attach(1, 2, pt, b"good")
+                sc.add(f"{leave} 1")
+                if t in ("PUB", "PUSH"):
+                    sc.add("drain")
+                    f = sc.fut()
+                    sc.add(f"send {f} 1 {wg.mtok([b'm1'])}", f"poll {f}", f"drop {f}")
+                    sc.add("drain")
+                if good is not None:
+                    sc.reveal_msg(2, good)
+                if t == "PUB":
+                    sc.add("drain")
+                elif t != "PUSH":
+                    for _ in range(2):
+                        f = sc.fut()
+                        sc.add(f"recv {f} 1", f"poll {f}", f"drop {f}")
+                if t != "PULL" and t != "SUB":
+                    f = sc.fut()
+                    m = [b"good", b"x"] if t == "ROUTER" else [b"m2"]
+                    sc.add(f"send {f} 1 {wg.mtok(m)}", f"poll {f}", f"drop {f}", "wire 2")
+                sc.add("halves 1", "halves 2")
+                out.append(Case(f"peer-state-{t}-text-identity-{len(ident)}-{leave}#{n}", "world", list(sc.ops), ["socket-peer-state", "text-identity"]))
+                n += 1
     # REP: requests with long / odd envelopes, then the reply that has to retrace them
     for env in ([], [b"r" * 255], [b"a", b"b" * 255, b"c" * 300], [b"x"] * 40):
         sc = wg.Script()
@@ -332,6 +371,8 @@ def oracle(case, impl_lines):
             return None
         if "socket-proxied-message" in case.tags:
             return None     # (no PANIC / ABORT / TIMEOUT above: the proxy forwarded the message or returned an error)
+        if "text-identity" in case.tags:
+            return None     # (no PANIC above, on any thread; the diff against the model settles what the socket does next)
         if "socket-peer-state" in case.tags:
             if not polls or not polls[-1].startswith("ready ok"):
                 return f"after handling a peer's odd but well-formed values the socket's own calls fail: {polls[-1:]}"
